@@ -147,6 +147,16 @@ func init() {
 		},
 		Undecided: []string{"wedge / timeliness (liveness), memory exhaustion, data races on plain fields", "panics inside callees are contained by the connection-level recover, they are not individually excluded"},
 	}
+	plans["C12"] = &Plan{
+		Items: append([]Item{
+			{Plugin: "handler-contract", Func: "mobius.HandleChatSend", Kinds: []string{"site"}},
+		}, fnItems([]string{"post", "guarded"}, "hotline.(*MemChatManager).Join", "hotline.(*MemChatManager).Leave", "hotline.(*MemChatManager).New")...),
+		Decided: []string{
+			"HandleChatSend: every chat line handed to a recipient (field 101 of a chat message) is at most 8192 bytes long, in the plain and in the emote form; a public line is addressed only to clients whose account holds read-chat; every transaction it produces is a chat message (106)",
+			"MemChatManager.Join adds exactly the joining client to the addressed chat; Leave removes exactly the leaving client and never the chat itself; New creates a chat whose only member is its creator; all other chats and members are unchanged (whole-map frames); the chat table is only touched under its mutex",
+		},
+		Undecided: []string{"exactly-once delivery to every member (Members / List with range + sort are not under functional contract)", "text format strings; invite / join / leave / subject handlers' recipient sets; delivery order"},
+	}
 	plans["C18"] = &Plan{
 		Items: append([]Item{
 			{Plugin: "sites", Func: "mobius.(*ThreadedNewsYAML).PostArticle", Kinds: []string{"site", "post", "guarded"}},
